@@ -41,17 +41,16 @@ def {name}(tail: bytes, session: int, level: int) -> bool:
                 obs.append({"name": name, "module_path": path, "function": name, "cap": 600, "opaque": True, "twin_cap": 60,
                             "meta": {"response_first_byte": hex(first), "length": n, "symbolic": "reply bytes, session, level"}})
     src.append('''
-def replay(has_ecu: bool, has_props: bool, session: int, level: int, last: int, first_hit: bool, second_hit: bool, row_id: int, reply_null: bool, tail: bytes) -> bool:
+def replay(has_ecu: bool, has_props: bool, session: int, level: int, last: int, first_hit: bool, second_hit: bool, row_id: int, reply_null: bool) -> bool:
     """
     pre: 1 <= session <= 0x7E and 0 <= level <= 0x41
     pre: -1 <= last <= 1000 and 0 <= row_id <= 1000
-    pre: len(tail) == 2
     post: _
     """
-    return replay_step(has_ecu, has_props, session, level, last, first_hit, second_hit, row_id, reply_null, tail)
+    return replay_step(has_ecu, has_props, session, level, last, first_hit, second_hit, row_id, reply_null, bytes([0xF1, 0x90]))
 ''')
     obs.append({"name": "replay", "module_path": path, "function": "replay", "cap": 900, "opaque": True, "twin_cap": 60,
-                "meta": {"function": "DBUDSServer.respond_after_default", "symbolic": "selection flags, state, cursor, hits, row id, NULL reply, request bytes"}})
+                "meta": {"function": "DBUDSServer.respond_after_default", "symbolic": "selection flags, state, cursor, hits, row id, NULL reply"}})
     with open(path, "w") as f:
         f.write("\n".join(src))
     return obs
